@@ -40,6 +40,7 @@ type env struct {
 	opTimeouts map[string]int // ... per operation
 	dead       bool           // too many of them: the remaining calls are skipped (counted)
 	lastNever  bool           // the last call never returned / was skipped (its loss is already reported)
+	control    controlFn      // see bounded.go
 }
 
 const (
@@ -445,6 +446,9 @@ func runE2E(c *hk.Ctx) {
 		e.errorPath()
 		e.sizes()
 		e.finish()
+	}
+	if len(neverReturned) > 0 {
+		c.SetExtra("e2e_calls_never_returned", neverReturnedSummary())
 	}
 }
 
